@@ -255,17 +255,28 @@ CHECKS = {
             "(no theorem speaks of them); acyclic graphs; pickle model is a tree (internal sharing checked by oracle only); dtype of an empty ndarray is not content.",
             "Lean 4 proof over a hand-written heap model + differential correspondence (in-process and fresh interpreter) + oracle with mutation test"),
     "C17": ("partial",
-            "Lean theorems C17.deterministic(_on), run_add, resume(_at), resumeFrom_eq, resume_many(_from), resume_needs_complete_state, schedule_independent/"
-            "covering/missing, pmap_eq_some_iff, loop_mapper_independent, loop_schedule_independent, genLoop_eq_run are the algebra of checkpointing and "
-            "order-preserving maps for every step function, crash list and completion schedule. The substance is the runtime check: for GA on lists, NSGA-II, SPEA2, "
-            "NSGA-III with memory, GP with ephemerals, CMA-ES, (1+lambda)-CMA, MO-CMA-ES (and the packaged deap.algorithms loops for determinism and schedules) the "
-            "three equations are evaluated on the implementation - twice in-process and in a fresh interpreter; kill -9 after EVERY generation with every pickle "
-            "protocol and resume in a new process; Pool(1,2,4,8).map with delays and all 24 permutations of small map calls - comparing complete fingerprints "
-            "(genomes, fitness, archives with keys, logbooks, strategy and selector-memory arrays byte-wise, both generator states).",
-            TB + "partial and the weakest of the twenty in its Lean part: the theorems do not speak about processes, pickles or the OS; that every object pickles its "
-            "complete state, that no operator keeps state outside the two generators and that evaluation is pure is exactly what the correspondence tests; OS (SIGKILL, "
-            "fresh process), multiprocessing.Pool.map as an order-preserving map, and the fingerprint's completeness are trusted.",
-            "Lean 4 algebra + process-level differential testing (kill/resume at every generation and protocol, permuted and pooled maps)"),
+            "Lean theorems, two layers. (1) Algebra of checkpointing and order-preserving maps for every step function, crash list and completion schedule: "
+            "C17.deterministic(_on), run_add, resume(_at), resumeFrom_eq, resume_many(_from), resume_needs_complete_state, schedule_independent/covering/missing, "
+            "pmap_eq_some_iff, loop/init_mapper_independent, loop_schedule_independent, genLoop_eq_run. (2) The same three equations for the generational machine "
+            "of Core/Loops.lean that C02/C03 are proved about: state_complete(_core) (the loop state - population with fitnesses, hall-of-fame feed, logbook rows, "
+            "evaluation counts, oid counter - together with the unread remainder of the tape determines the continuation), runGens_eq_run, c03_resume(+_machine, "
+            "_via_run, _runPop) and its corollaries for eaSimple / eaMuPlusLambda / eaMuCommaLambda / harm / eaGenerateUpdate at every generation boundary of every "
+            "run, c03_resume_needs_tape (dropping the generator state from the checkpoint changes the run: the hypothesis is necessary), c03_evalPhase_seq/"
+            "_mapper_independent/_schedule_independent/_schedule_at and the lifts c03_generation/runGens/runPop/eaSimple_schedule_independent (any mapper that "
+            "returns the evaluations in input order, completed under any schedule, gives the same run). The runtime check (13 families in harness/props/"
+            "c17_families.py: GA on lists, NSGA-II, SPEA2, NSGA-III with memory, GP with ephemerals, CMA-ES, (1+lambda)-CMA, MO-CMA-ES with mu=,<,>lambda, float32 "
+            "numpy ES, CMA-ES N=30, GA with MultiStatistics and a streamed logbook; shared-object variants; the 4 packaged loops) evaluates the three equations on the "
+            "implementation: twice in-process and in a fresh interpreter; kill -9 after EVERY generation of EVERY family (quick: two pickle protocols per crash point "
+            "rotating over all six, thorough: all six, 3 seeds) and resume in a new process; fork pools of 1..8 workers and one spawn pool with per-task delays, all "
+            "24 permutations of small map calls - comparing complete fingerprints (genomes with dtype, fitness, archives with keys, logbooks incl. chapters and "
+            "stream position, strategy and selector-memory arrays byte-wise, both generator states).",
+            TB + "partial: the theorems speak about the abstract machine (pure evaluate, operators meeting C02's OpContract, randomness as a tape); that every real "
+            "object pickles its complete state, that no operator keeps state outside the two generators, that evaluation is pure and that CPython's hash seed does "
+            "not leak into any draw is what the process-level oracle tests, not a theorem. The protocol lines of this check (pmap with a schedule, toy resume) "
+            "tie only the driver's algebra to completion orders observed in real pools. OS (SIGKILL, fresh process), multiprocessing.Pool.map as an order-"
+            "preserving map, and the fingerprint's completeness are trusted.",
+            "Lean 4 proof over the C03 loop machine (state completeness, resume, schedule independence) + process-level differential testing (kill/resume at every "
+            "generation and protocol, permuted and pooled maps)"),
 }
 
 NOT_YET = {}
